@@ -338,6 +338,12 @@ def c02(ctx):
                 fr = short(t.frm)
                 ok = fr in ('SEARCH_COMMAND', 'PRINT_CMD') and e['val'][1] == 'CMDS[%s]' % (t.pre.mem.get(('S', 'index')),)
                 ctx.check('single-selector', ok, t.site(e), 'the current command is set to %s in state %s (index %s)' % (e['val'][1], fr, t.pre.mem.get(('S', 'index'))))
+        # candidates are counted exactly (a counter that can wrap would make an ambiguous prefix look unique)
+        for e in t.stores():
+            if e['loc'] == ('S', 'partial_cntr') and t.frm.endswith('SEARCH_COMMAND'):
+                old = t.pre.mem.get(('S', 'partial_cntr'))
+                ctx.check('tie-break', is_lin(old) and is_lin(e['val']) and e['val'] == old.addc(1), t.site(e),
+                          'the candidate counter goes from %s to %s: it does not count every candidate (narrow type or wrong step)' % (old, e['val']))
         # tie-break at the end of the scan
         if t.frm.endswith('SEARCH_COMMAND') and t.to.endswith('COMMAND_FOUND'):
             sel = [e for e in t.stores() if e['loc'] == ('S', 'cmd')]
